@@ -40,6 +40,12 @@
 (*            production file, hundreds at scale); ledger (fixed shape):   *)
 (*            the number of unrelated extra elements the file carries.     *)
 (*            Never part of the condition: a longer file changes nothing.  *)
+(*   embed    sgx: does the attestation file itself carry a self-signed CA  *)
+(*            certificate as one more x509 element - "none", "chainroot"   *)
+(*            (the root its chain was issued under) or "chosenroot" (the   *)
+(*            operator's root of trust) - and `ename`: under the reserved  *)
+(*            name "sgx_root" or a near miss ("near").  Never part of the  *)
+(*            condition: the chain must verify under the CHOSEN root only. *)
 (*   brk      the elements that do NOT verify under their certifier (one   *)
 (*            real corruption each).  ui/pow `chain` = "broken" iff some   *)
 (*            element on the way from the root to that target is in brk.   *)
@@ -300,6 +306,9 @@ Consistent(inp, s, k33) ==
     /\ inp.plat = "sgx" => inp.pow.exists = Listed(inp, "quote") /\ inp.pow.chain = ChainOf(inp, "quote")
     /\ inp.plat = "sgx" => inp.plen >= (IF "mid" \in Range(inp.targets) \cup Range(inp.brk) THEN 5 ELSE 3)
     /\ inp.plat = "ledger" => inp.plen >= 0
+    /\ inp.embed \in {"none", "chainroot", "chosenroot"} /\ inp.ename \in {"na", "sgx_root", "near"}
+    /\ (inp.embed = "none") <=> (inp.ename = "na")
+    /\ inp.plat = "ledger" => inp.embed = "none"
     /\ inp.pow.hdr \in {"current", "legacy", "foreign", "sep", "sepleg"}
     /\ ExtIs(inp.pow, s.pow, PowFormatLen(inp.pow.hdr))
     /\ LET c == Core(inp.pow, s.pow) IN
